@@ -5144,6 +5144,12 @@ where
             return Ok(0);
         };
 
+        // Transactional guard: the post-removal flip repair can fail after the vertex is already
+        // gone. Keep a snapshot whenever that repair may run, so `Err` means "nothing changed".
+        let snapshot_needed =
+            self.insertion_state.delaunay_repair_policy != DelaunayRepairPolicy::Never;
+        let snapshot = snapshot_needed.then(|| self.tri.tds.clone());
+
         // Fast path: inverse k=1 flip when the vertex star is a simplex.
         let mut seed_cells: Option<CellKeyBuffer> = None;
         let cells_removed = match apply_bistellar_flip_k1_inverse(
@@ -5170,12 +5176,19 @@ where
         let topology = self.tri.topology_guarantee();
         if self.should_run_delaunay_repair_for(topology, 0) {
             let seed_ref = seed_cells.as_deref();
-            let (tds, kernel) = (&mut self.tri.tds, &self.tri.kernel);
-            repair_delaunay_with_flips_k2_k3(tds, kernel, seed_ref, topology).map_err(|e| {
-                TdsValidationError::InconsistentDataStructure {
+            let repair_result = {
+                let (tds, kernel) = (&mut self.tri.tds, &self.tri.kernel);
+                repair_delaunay_with_flips_k2_k3(tds, kernel, seed_ref, topology)
+            };
+            if let Err(e) = repair_result {
+                if let Some(tds) = snapshot {
+                    self.tri.tds = tds;
+                }
+                return Err(TdsValidationError::InconsistentDataStructure {
                     message: format!("Delaunay repair failed after vertex removal: {e}"),
                 }
-            })?;
+                .into());
+            }
         }
 
         Ok(cells_removed)
